@@ -46,6 +46,7 @@ int sqfs_writer_init(sqfs_writer_t *sqfs, const sqfs_writer_cfg_t *wrcfg)
 {
 	sqfs_block_processor_desc_t blkdesc;
 	sqfs_compressor_config_t cfg;
+	sqfs_file_handle_t outfd;
 	fstree_defaults_t fsd;
 	int ret, flags;
 
@@ -57,10 +58,19 @@ int sqfs_writer_init(sqfs_writer_t *sqfs, const sqfs_writer_cfg_t *wrcfg)
 		return -1;
 	}
 
-	ret = sqfs_file_open(&sqfs->outfile, wrcfg->filename, wrcfg->outmode);
+	ret = sqfs_native_file_open(&outfd, wrcfg->filename, wrcfg->outmode);
 	if (ret) {
 		sqfs_perror(wrcfg->filename, "open", ret);
 		return -1;
+	}
+
+	/* from here on the file exists and has to be removed on failure */
+	ret = sqfs_file_open_handle(&sqfs->outfile, wrcfg->filename,
+				    outfd, wrcfg->outmode);
+	if (ret) {
+		sqfs_perror(wrcfg->filename, "open", ret);
+		sqfs_native_file_close(outfd);
+		goto fail_file;
 	}
 
 	if (parse_fstree_defaults(&fsd, wrcfg->fs_defaults))
